@@ -668,3 +668,117 @@ fn fmt_run(c: &(String, usize, usize, bool, Option<usize>, Vec<usize>, usize, u8
         if c.5.is_empty() { "-".to_string() } else { c.5.iter().map(|x| x.to_string()).collect::<Vec<_>>().join("/") }
     )
 }
+
+// ------------------------------------------------------------------ canary items (K6)
+
+pub const MAGIC: u64 = 0x5eed_c0de_1234_abcd;
+pub static TOK_TABLE: Mutex<Vec<u8>> = Mutex::new(vec![]);
+pub static TOK_BAD: AtomicUsize = AtomicUsize::new(0);
+
+/// an owned item whose creation and every drop are recorded
+pub struct Tok {
+    pub v: i64,
+    id: usize,
+    magic: u64,
+    _heap: Box<i64>,
+}
+impl Tok {
+    pub fn new(v: i64) -> Tok {
+        let mut t = lock(&TOK_TABLE);
+        let id = t.len();
+        t.push(0);
+        Tok { v, id, magic: MAGIC, _heap: Box::new(v) }
+    }
+}
+impl Drop for Tok {
+    fn drop(&mut self) {
+        if self.magic != MAGIC {
+            // dropping memory that never held a live Tok (or holds an already dropped one)
+            TOK_BAD.fetch_add(1, Ordering::SeqCst);
+            // keep the process alive: do not free the garbage box
+            let b = std::mem::replace(&mut self._heap, Box::new(0));
+            std::mem::forget(b);
+            return;
+        }
+        let mut t = lock(&TOK_TABLE);
+        if self.id < t.len() {
+            t[self.id] = t[self.id].saturating_add(1);
+        } else {
+            TOK_BAD.fetch_add(1, Ordering::SeqCst);
+        }
+        self.magic = 0xdead_dead_dead_dead;
+    }
+}
+impl AsI64 for Tok {
+    fn v(&self) -> i64 {
+        self.v
+    }
+}
+pub fn tok_reset() {
+    lock(&TOK_TABLE).clear();
+    TOK_BAD.store(0, Ordering::SeqCst);
+}
+/// (created, dropped exactly once, leaked, dropped more than once, bad drops)
+pub fn tok_report() -> String {
+    let t = lock(&TOK_TABLE);
+    let created = t.len();
+    let once = t.iter().filter(|x| **x == 1).count();
+    let leaked = t.iter().filter(|x| **x == 0).count();
+    let multi = t.iter().filter(|x| **x > 1).count();
+    format!("created={} once={} leaked={} multi={} bad={}", created, once, leaked, multi, TOK_BAD.load(Ordering::SeqCst))
+}
+
+pub fn tmk_map<T: AsI64>(id: usize, c: Cl) -> impl Fn(T) -> Tok + Clone + Send + Sync {
+    move |x: T| {
+        let v = x.v();
+        log_call(id, v);
+        Tok::new(run_map(c, v))
+    }
+}
+pub fn tmk_flat<T: AsI64>(id: usize, c: Cl) -> impl Fn(T) -> Vec<Tok> + Clone + Send + Sync {
+    move |x: T| {
+        let v = x.v();
+        log_call(id, v);
+        run_flat(c, v).into_iter().map(Tok::new).collect()
+    }
+}
+pub fn tmk_fm<T: AsI64>(id: usize, c: Cl) -> impl Fn(T) -> Option<Tok> + Clone + Send + Sync {
+    move |x: T| {
+        let v = x.v();
+        log_call(id, v);
+        run_fm(c, v).map(Tok::new)
+    }
+}
+pub fn tmk_red(id: usize, o: RedOp) -> impl Fn(Tok, Tok) -> Tok + Clone + Send + Sync {
+    move |a: Tok, b: Tok| {
+        note_red(id);
+        Tok::new(run_red(o, a.v, b.v))
+    }
+}
+
+pub struct TokSrc {
+    data: std::vec::IntoIter<Tok>,
+    exact: bool,
+}
+impl TokSrc {
+    pub fn new(data: Vec<i64>, exact: bool) -> Self {
+        Self { data: data.into_iter().map(Tok::new).collect::<Vec<_>>().into_iter(), exact }
+    }
+}
+impl Iterator for TokSrc {
+    type Item = Tok;
+    fn next(&mut self) -> Option<Tok> {
+        self.data.next()
+    }
+    fn size_hint(&self) -> (usize, Option<usize>) {
+        let n = self.data.len();
+        if self.exact {
+            (n, Some(n))
+        } else {
+            (0, None)
+        }
+    }
+}
+pub fn toks(v: &[i64]) -> Vec<Tok> {
+    v.iter().map(|x| Tok::new(*x)).collect()
+}
